@@ -10,7 +10,13 @@
  C01.result     every return path of validate() yields a non-empty str (otherwise is_valid()
                 is False although validate() returned, or the caller gets a non-string).
  C01.registry   keys that validate() demands of registry properties are present in every entry
-                that can reach that point (decided on the registry files)."""
+                that can reach that point (decided on the registry files).
+ C01.reuse      validate() reads its raw argument once: on every path, before the parameter is rebound
+                (`number = compact(number)`), a second read of it is only allowed as the argument of
+                another module's validate()/is_valid(), which gates it again.  The argument may be an
+                object that can be read only once (an iterator over characters): a second clean() /
+                compact() / getter call on it sees the empty string although the gates were evaluated
+                on the first reading (us.ein.validate(iter('91-1144442')) raised IndexError)."""
 import ast
 import os
 
@@ -102,6 +108,109 @@ def is_valid_rule(rep, prog):
     return n
 
 
+def _events(node, par, out):
+    """Reads of the parameter in evaluation order: ('load', node, gated) and ('store',)."""
+    if isinstance(node, ast.Call):
+        fn = node.func
+        gated = (isinstance(fn, ast.Attribute) and fn.attr in ('validate', 'is_valid')) or (isinstance(fn, ast.Name) and fn.id in ('validate', 'is_valid'))
+        _events(fn, par, out)
+        for a in list(node.args) + [k.value for k in node.keywords]:
+            if gated and isinstance(a, ast.Name) and a.id == par:
+                out.append(('load', a, True))
+            else:
+                _events(a, par, out)
+        return
+    if isinstance(node, ast.Name) and node.id == par:
+        out.append(('load', node, False) if isinstance(node.ctx, ast.Load) else ('store',))
+        return
+    if isinstance(node, (ast.Lambda, ast.FunctionDef)):
+        return
+    for c in ast.iter_child_nodes(node):
+        _events(c, par, out)
+
+
+def _paths(stmts, par):
+    """Event lists of the paths through a statement list (bounded; a path that returns or raises ends with None)."""
+    paths = [[]]
+
+    def seq(ps, more):
+        out = []
+        for p_ in ps:
+            if p_ and p_[-1] is None:
+                out.append(p_)
+            else:
+                out += [p_ + m for m in more]
+        return out[:512]
+    for st in stmts:
+        ev = []
+        if isinstance(st, ast.If):
+            _events(st.test, par, ev)
+            more = [ev + b for b in _paths(st.body, par) + _paths(st.orelse, par)]
+        elif isinstance(st, (ast.For, ast.While)):
+            _events(st.iter if isinstance(st, ast.For) else st.test, par, ev)
+            if isinstance(st, ast.For):
+                _events(st.target, par, ev)
+            more = [ev + b + o for b in _paths(st.body, par) + [[]] for o in _paths(st.orelse, par)]
+        elif isinstance(st, ast.Try):
+            body = _paths(st.body, par)
+            more = [b + o for b in body for o in _paths(st.orelse, par)]
+            for h in st.handlers:
+                # the handler runs after any prefix of the body: count the reads of the whole body (without its return)
+                more += [[e for e in b if e is not None] + hb for b in body for hb in _paths(h.body, par)]
+            more = [m if (m and m[-1] is None) else m + f for m in more for f in _paths(st.finalbody, par)]
+        elif isinstance(st, ast.With):
+            for it in st.items:
+                _events(it, par, ev)
+            more = [ev + b for b in _paths(st.body, par)]
+        elif isinstance(st, ast.Assign):
+            _events(st.value, par, ev)
+            for t in st.targets:
+                _events(t, par, ev)
+            more = [ev]
+        elif isinstance(st, (ast.Return, ast.Raise)):
+            _events(st, par, ev)
+            more = [ev + [None]]
+        else:
+            _events(st, par, ev)
+            more = [ev]
+        paths = seq(paths, more)
+    return paths
+
+
+def reuse_rule(rep, prog, skip=()):
+    n = 0
+    for mn in prog.number_modules():
+        if mn in skip:
+            continue
+        m = prog.mods[mn]
+        fn = m.funcs.get('validate')
+        if fn is None or not fn.args.args:
+            continue
+        par = fn.args.args[0].arg
+        n += 1
+        bad = None
+        for path in _paths(strip_doc(fn.body), par):
+            loads = []
+            for e in path:
+                if e is None or e[0] == 'store':
+                    break
+                loads.append(e)
+            later = [e for e in loads[1:] if not e[2]]
+            if later:
+                bad = later[0][1]
+                break
+        stmt = None
+        if bad is not None:
+            for st in ast.walk(fn):
+                if isinstance(st, ast.stmt) and not isinstance(st, (ast.If, ast.For, ast.While, ast.Try, ast.With, ast.FunctionDef)) and any(x is bad for x in ast.walk(st)):
+                    stmt = st
+        rep.check(bad is None, 'C01.reuse', rel(m.path), 'validate', src(stmt) if stmt is not None else par, getattr(bad, 'lineno', fn.lineno),
+                  '%s.validate() reads its raw argument %r a second time here after gates were evaluated on the first reading: for an argument that can be '
+                  'read only once (an iterator over characters) the second reading is empty, so what is returned or looked up was never gated'
+                  % (mn.replace('stdnum.', ''), par), what='%s: the raw argument is read once (or handed on to another validate())' % mn.replace('stdnum.', ''))
+    return n
+
+
 def registry_holds(regs, name, key, given):
     """every entry that can reach the read (effective properties containing all `given` keys; the pseudo key '' stands for a
     dominating truth test of the properties, which entries without any property do not pass) has `key`."""
@@ -131,11 +240,15 @@ def check(tier):
                           'sys.get_int_max_str_digits() == 4300'],
                  assumptions=['no monkey-patching', 'options take values of the kind their defaults suggest (bool, str or None)'])
     nsinks, nres = analyse(rep, tier)
+    rep.unit('validate() functions read for C01.reuse', reuse_rule(rep, get_interp().prog, skip=get_interp().ALG_MODULES))
     rep.unit('modules', nres)
     rep.unit('partial operations reached', nsinks)
     rep.expect_at_least('C01.sink', 900, 'partial operations reached by the interpreter')
     rep.expect_at_least('C01.result', 230, 'return paths')
-    rep.not_decided = ['%s: %s' % kv for kv in sorted(scope.C01_UNDECIDED_SINKS.items())]
+    rep.expect_at_least('C01.reuse', 220, 'validate() functions')
+    rep.not_decided = ['%s: %s' % kv for kv in sorted(scope.C01_UNDECIDED_SINKS.items())] + [
+        'C01.reuse does not cover the generic algorithm modules (luhn, verhoeff, damm, iso7064.*): they have no compact(), test and return their '
+        'argument as it was given (an iterator argument is returned as that iterator object)']
     return rep.finish()
 
 
